@@ -135,10 +135,24 @@ class chunks(object):
                 raOffset = 360.0*float(j)/float(NRA)
         return (raRangeMin, raOffset)
 
+    @staticmethod
+    def wrapra(ra):
+        """Reduce right ascension to the range [0, 360).
+
+        :func:`numpy.fmod` keeps the sign of its argument, so a negative
+        right ascension has to be shifted up by one turn.
+        """
+        currRa = np.fmod(ra, 360.0)
+        currRa = np.where(currRa < 0.0, currRa + 360.0, currRa)
+        #
+        # A tiny negative value plus 360 rounds to 360.
+        #
+        return np.where(currRa >= 360.0, 0.0, currRa)
+
     def getraminmax(self, ra, raOffset):
         """Utility function used by rarange.
         """
-        currRa = np.fmod(ra + raOffset, 360.0)
+        currRa = self.wrapra(ra + raOffset)
         return (currRa.min(), currRa.max())
 
     def cosDecMin(self, i):
@@ -160,7 +174,7 @@ class chunks(object):
             raise PydlutilsException("marginSize>=minSize ({0:f}={1:f}) in chunks.assign().".format(marginSize, self.minSize))
         chunkDone = [[False for j in range(self.nRa[i])] for i in range(self.nDec)]
         for i in range(ra.size):
-            currRa = np.fmod(ra[i] + self.raOffset, 360.0)
+            currRa = float(self.wrapra(ra[i] + self.raOffset))
             try:
                 raChunkMin, raChunkMax, decChunkMin, decChunkMax = self.getbounds(currRa, dec[i], marginSize)
             except PydlutilsException:
@@ -647,7 +661,7 @@ def spherematch(ra1, dec1, ra2, dec2, matchlength, chunksize=None,
     match2 = list()
     distance12 = list()
     for i in range(ra1.size):
-        currra = np.fmod(ra1[i]+chunk.raOffset, 360.0)
+        currra = float(chunk.wrapra(ra1[i]+chunk.raOffset))
         rachunk, decchunk = chunk.get(currra, dec1[i])
         jmax = len(chunk.chunkList[decchunk][rachunk])
         if jmax > 0:
